@@ -50,19 +50,19 @@ theorem generated_getitem_empty_grid (G : DFRD K 0) (dt : Dt) (key : List Nat ×
 == w)` per requested frequency, `ValueError` when one is not stored, `self.frdata[:, :, [first match …]]`)
 returns the model's `DFRD.eval` — the stored matrices in the order of the request, repeats included. -/
 theorem generated_eval_eq {n : Nat} (G : DFRD K n) (dt : Dt) (ws : List ℚ) (hs : G.smooth = false) :
-    Generated.frdEval (PyFRD.of G dt) (PVec.ofList ws) = (G.eval ws).map fun l => PArr3.ofList G.p G.m l := by
+    Generated.frdEval (PyFRD.of G dt) (FVec.ofList ws) = (G.eval ws).map fun l => PArr3.ofList G.p G.m l := by
   obtain ⟨p, m, ⟨w, g⟩, sm⟩ := G
   simp only at hs
   subst hs
-  have himag : PBVec.any (PVec.gtNum (PVec.imag (PVec.array1 (PVec.ofList ws))) 0) = false := by
-    simp [PBVec.any, PVec.gtNum, PVec.imag]
-  have hlist : PVec.toList (PVec.array1 (PVec.ofList ws)) = ws := by
-    simp [PVec.toList, PVec.array1, PVec.ofList]
+  have himag : PBVec.any (FVec.gtNum (FVec.imag (FVec.array1 (FVec.ofList ws))) 0) = false := by
+    simp [PBVec.any, FVec.gtNum, FVec.imag]
+  have hlist : FVec.toList (FVec.array1 (FVec.ofList ws)) = ws := by
+    simp [FVec.toList, FVec.array1, FVec.ofList]
   simp only [Generated.frdEval, himag, Bool.false_eq_true, if_false, PyFRD.of, PyFRD.smooth, Bool.not_false,
     if_true, hlist, PyFRD.omega, PyFRD.frdata, DFRD.eval, FRD.eval, bind, Except.bind, pure, Except.pure]
   set F : FRD n (Fin p) (Fin m) K := ⟨w, g⟩ with hF
   -- the index the code finds for a requested frequency
-  let f : ℚ → List Nat := fun x => PBVec.flatnonzero (PVec.eqNum ⟨n, w⟩ x)
+  let f : ℚ → List Nat := fun x => PBVec.flatnonzero (FVec.eqNum ⟨n, w⟩ x)
   by_cases hall : ∀ x ∈ ws, F.find? x ≠ none
   · -- every requested frequency is stored
     have hany : (List.map f ws).any (fun l => decide (l.length = 0)) = false := by
@@ -135,10 +135,10 @@ theorem generated_eval_eq {n : Nat} (G : DFRD K n) (dt : Dt) (ws : List ℚ) (hs
 
 
 /-- `eval` of an interpolating FRD evaluates the spline: external, not translated. -/
-theorem generated_eval_smooth {n : Nat} (G : DFRD K n) (dt : Dt) (ws : PVec) (hs : G.smooth = true) :
+theorem generated_eval_smooth {n : Nat} (G : DFRD K n) (dt : Dt) (ws : FVec) (hs : G.smooth = true) :
     Generated.frdEval (PyFRD.of G dt) ws = .error .notImplemented := by
-  have himag : PBVec.any (PVec.gtNum (PVec.imag ws) 0) = false := by
-    simp [PBVec.any, PVec.gtNum, PVec.imag]
+  have himag : PBVec.any (FVec.gtNum (FVec.imag ws) 0) = false := by
+    simp [PBVec.any, FVec.gtNum, FVec.imag]
   simp [Generated.frdEval, himag, PyFRD.of, PyFRD.smooth, hs, throw, throwThe, MonadExceptOf.throw]
 
 end CtrlVerif.C09Gen
